@@ -5,6 +5,7 @@ package main
 // server; the same bytes go to the model's parser.
 
 import (
+	"bytes"
 	"encoding/binary"
 	"fmt"
 	"net"
@@ -181,7 +182,11 @@ func runReplyScenario(seed uint64, size int, t *Trace) error {
 		e.S.VerifInject(MkReport(1, ts, 2+uint64(r.Intn(5)), dev.Priv).Serialize())
 	}
 	// authorized servers (some banned, locations 0..255) and possibly a migration order
-	for i := 0; i < r.Intn(4); i++ {
+	nAS := r.Intn(4)
+	if r.Chance(30) {
+		nAS = 5 + r.Intn(8) // long lists: the serialized list alone is longer than the fixed part of the reply
+	}
+	for i := 0; i < nAS; i++ {
 		as := server.AuthorizedServer{PublicKey: detKey(seed, 500+i).Pub, Banned: r.Chance(30), Location: strings.Repeat("h", []int{0, 9, 255, r.Intn(256)}[r.Intn(4)]),
 			HttpPort: closedPortOnce(), TcpPort: uint16(r.Next()), UdpPort: uint16(r.Next())}
 		as.GCAAuthorization = glow.Sign(as.SigningBytes(), e.GCA.Priv)
@@ -190,7 +195,11 @@ func runReplyScenario(seed uint64, size int, t *Trace) error {
 	newGCA := detKey(seed, 700)
 	if r.Chance(45) {
 		em := server.EquipmentMigration{Equipment: dev.Pub, NewGCA: newGCA.Pub, NewShortID: uint32(r.Intn(1000))}
-		for i := 0; i < r.Intn(4); i++ {
+		nMS := r.Intn(4)
+		if r.Chance(30) {
+			nMS = 5 + r.Intn(6)
+		}
+		for i := 0; i < nMS; i++ {
 			as := server.AuthorizedServer{PublicKey: detKey(seed, 600+i).Pub, Location: strings.Repeat("m", r.Intn(40)), HttpPort: 1, TcpPort: 2, UdpPort: 3, Banned: r.Chance(20)}
 			signer := newGCA.Priv
 			if r.Chance(12) {
@@ -241,7 +250,31 @@ func runReplyScenario(seed uint64, size int, t *Trace) error {
 	emit("wrong-gca", genuine, sk, detKey(seed, 61).Pub)
 	body := genuine[2 : len(genuine)-64]
 	for i := 0; i < size; i++ {
-		switch r.pick([]int{25, 10, 10, 15, 10, 10, 10, 10}) {
+		switch r.pick([]int{25, 10, 10, 15, 10, 10, 10, 10, 12}) {
+		case 8: // rogue server: an entry the GCA never signed, slipped in among the genuine ones (possibly for a key that is listed)
+			listed := e.S.VerifSnapshot().Servers
+			m := append([]byte(nil), body...)
+			if len(m) >= 576+72 && bytes.Equal(m[540:572], make([]byte, 32)) { // no migration order in this reply
+				forged := server.AuthorizedServer{PublicKey: detKey(seed, 970).Pub, Banned: r.Chance(60), Location: "x", HttpPort: 1, TcpPort: 2, UdpPort: 3}
+				if len(listed) > 0 && r.Chance(70) {
+					forged = listed[r.Intn(len(listed))]
+					forged.Banned = true
+					forged.HttpPort++
+				}
+				forged.GCAAuthorization = glow.Sign(forged.SigningBytes(), skPriv)
+				if r.Chance(15) {
+					forged.GCAAuthorization = glow.Signature{}
+				}
+				fb := forged.Serialize()
+				at := 576
+				if r.Chance(50) {
+					at = len(m) - 72
+				}
+				m2 := append(append(append([]byte(nil), m[:at]...), fb...), m[at:]...)
+				emit("rogue-forged-entry", resign(m2, skPriv), sk, e.GCA.Pub)
+				break
+			}
+			emit("genuine-again", genuine, sk, e.GCA.Pub)
 		case 0: // single bit flip anywhere (prefix included)
 			m := append([]byte(nil), genuine...)
 			b := r.Intn(len(m) * 8)
